@@ -145,7 +145,7 @@ def walk(job):
         t0 = rewrite.parse(text)
     except BaseException:  # noqa
         return None
-    persistent = rewrite.rules()
+    persistent = rewrite.rules(pos=bool(common.pick(text, 2)))
     objs = project.ObjTable()
     prev = project.snapshot(objs, [t0])
     tr = {"text": text, "start": project.term(t0), "steps": [], "script": []}
